@@ -108,6 +108,9 @@ def check_case(case, rec):
     # rebuilt with drawn numbers / insertion order (on the Kekule form), then the requested form
     mk = m.copy()
     mk.kekule()
+    if mk.check_valence() or any(a.implicit_hydrogens is None for _, a in mk.atoms()):
+        rec.count('skip:the Kekule form of the aromatic input is not valence-valid (exotic aromatic ring, C05 domain question)')
+        return
     r, mp, left = molgen.rebuild(mk, case['seed'], max_number=900)
     if left or molgen.map_snapshot(molgen.snapshot(mk), mp) != molgen.snapshot(r):
         rec.count('generator-reject:labels/hydrogens not derivable from the graph')
